@@ -140,10 +140,16 @@ Fixpoint has_reserved (top : bool) (j : json) : bool :=
   | _ => false
   end.
 
+(* Value::get(key).is_some() *)
+Definition jhas_ (k : string) (j : json) : bool :=
+  match j with JObj kvs => match obj_get k kvs with Some _ => true | None => false end | _ => false end.
+
 (* Issuer::encode. max_decoys = the argument of .decoy(), if called; cnf = the holder JWK, if required *)
 Definition issue (claims : json) (paths : list string) (max_decoys : option Z) (cnf : option json) (header : json)
   : out (string * json * list disc) :=
   if has_reserved true claims then Fail else
+  (* repair F21: with key binding the issuer sets cnf itself; a cnf claim of the caller is refused *)
+  if (match cnf with Some _ => jhas_ "cnf" claims | None => false end) then Fail else
   dO cd <- of_res (issue_fold claims paths (ie_salts E));
   let '(c1, ds) := cd in
   match c1 with
